@@ -63,6 +63,7 @@ Next ==
         /\ active' = {} /\ rootOf' = Fn({}, LAMBDA x : 0) /\ cnt' = Fn({}, LAMBDA x : 0) /\ written' = FALSE
         /\ steps' = steps /\ l' = l + 1 /\ lost' = FALSE /\ mech' = TRUE
         /\ starve' = Fn({}, LAMBDA x : [n |-> 0, k |-> 0])
+     ELSE IF "res" \in DOMAIN e /\ e.res = "hang" THEN Reject(<<"the call did not return", e.op>>)
      ELSE IF lost \/ "fs" \notin DOMAIN e \/ Len(e.fs.added) > 1 THEN
         \* the walk was not taken at quiescence (a stranded cleaner job): the rest of this trace is not judged
         /\ UNCHANGED <<dvars, mech, starve>> /\ l' = l + 1 /\ lost' = TRUE
